@@ -27,8 +27,8 @@ def run(ctx):
                         "the delay layer (ld --wrap of lock/unlock/wait/signal) adds random yields and micro-sleeps but no synchronisation"]
     return ctx.finish(
         rule="process runs under -fsanitize=thread: (pool) 2-6 caller threads each with a pooled writer (1 KiB blocks, six compression types) and a pooled multi-chunk sorter sharing one pool of 1-4 threads, with and without delay "
-             "injection; (reader) 4-12 threads on one open reader (six compression types, verify_checksums on/off) doing scans, get, get_prefix, get_range, seek storms through private iterators; (crc) concurrent mtbl_crc32c; "
+             "injection; (reader) 4-12 threads on one open reader (six compression types, verify_checksums on/off, counter/run/random block contents) doing scans, get, get_prefix, get_range, seek storms through private iterators; (crc) concurrent mtbl_crc32c; "
              "every distinct TSan data-race report involving library frames is a violation; distinct_nontrivial = distinct workload instances",
         evaluations=s.get("pool.runs", 0) + s.get("reader.runs", 0) + s.get("crc.runs", 0),
-        floors={"pool.runs": 200, "reader.runs": 120, "pool.block_jobs": 10000, "reader.ops": 200000, "pool.callers.6": 1, "pool.size.1": 1, "reader.verify.1": 5},
+        floors={"pool.runs": 200, "reader.runs": 120, "pool.block_jobs": 10000, "reader.ops": 200000, "pool.callers.6": 1, "pool.size.1": 1, "reader.verify.1": 5, "reader.content.runs": 20, "reader.content.random": 20},
         extra={"tsan_reports_by_kind": {k: v for k, v in s.items() if k.startswith("tsan.")}, "block_jobs_through_pool": s.get("pool.block_jobs", 0), "reader_ops": s.get("reader.ops", 0)})
